@@ -18,7 +18,7 @@ THEOREMS = [
 ]
 IMPORTS = ['LcdbModel.Props.C08', 'LcdbModel.Props.C04Conc']
 TARGETS = ['LcdbModel.Props.C08', 'LcdbModel.Props.C04Conc']
-OWN = set('linearizable,monotonic,snapshot,scan,final,write,read'.split(','))
+OWN = set('linearizable,monotonic,snapshot,scan,final,write,read,layout'.split(','))
 
 
 def run(tier):
